@@ -14,7 +14,6 @@ with the fold.
 """
 from __future__ import annotations
 
-import importlib
 import json
 import os
 from fractions import Fraction
@@ -49,7 +48,7 @@ def tab(t) -> np.ndarray:
     return a[..., 0] / a[..., 1]
 
 
-def rat(v, bound=1 << 14):
+def rat(v, bound=1 << 12):
     """float -> [n, d] exactly; None if too large for TLC's 32-bit integers"""
     f = Fraction(float(v))
     if abs(f.numerator) >= bound or f.denominator >= bound:
@@ -57,7 +56,7 @@ def rat(v, bound=1 << 14):
     return [f.numerator, f.denominator]
 
 
-def rtab(a, bound=1 << 14):
+def rtab(a, bound=1 << 12):
     a = np.asarray(a)
     if a.ndim == 0:
         return rat(a, bound)
@@ -78,7 +77,6 @@ def close(v, x, ulps):
 
 
 def _mods():
-    import jax  # noqa: F401
     from rl_blox.algorithm import double_q_learning, dynaq, monte_carlo, q_learning, sarsa
     from rl_blox.blox import value_policy
 
@@ -182,7 +180,7 @@ def check_vectors(rep, M, alg, ns, lat, counters):
         raise tlc.MachineryError(f"no vectors emitted for {alg}")
     rng = np.random.default_rng(rep.seed + 17 * ns + lat)
     if alg == "PLAN":
-        k = min(len(es), 400 if rep.tier == "quick" else 2500)
+        k = min(len(es), 250 if rep.tier == "quick" else 2500)
         idx = rng.choice(len(es), size=k, replace=False)
         # ties of the model row are the interesting cases: take all of a bounded number of them first
         pick = [es[i] for i in idx]
@@ -221,3 +219,803 @@ def check_vectors(rep, M, alg, ns, lat, counters):
             rep.violation(key, what, {"kind": "vector", "e": e})
     rep.sample({"vector": es[int(rng.integers(len(es)))]})
     return es
+
+
+# ---------------------------------------------------------------- B. histories (graph cover)
+MC_ULPS_PER_VISIT = 4  # per visit: subtract, reciprocal, multiply, add - each rounds once (<= 1/2 ulp of the magnitude bound)
+
+
+def mc_compare(q_real, n_real, q_model, n_model, n0, mag):
+    """Real table/counts vs model (rationals). Exact while all step sizes 1/n are dyadic (n <= 2), else ulps by visit count."""
+    nm = np.asarray(n_model)
+    if not np.array_equal(np.asarray(n_real, dtype=np.float64), nm.astype(np.float64)):
+        raise Mismatch(f"visit counts {np.asarray(n_real).tolist()} differ from model {nm.tolist()}", site="counts")
+    exact = nm.max() <= 2
+    for s in range(nm.shape[0]):
+        for a in range(nm.shape[1]):
+            x = q_model[s][a]
+            v = float(q_real[s, a])
+            if Fraction(v) == Fraction(int(x[0]), int(x[1])):
+                continue
+            visits = int(nm[s, a]) - n0
+            tol = 0.0 if (exact or visits == 0) else MC_ULPS_PER_VISIT * visits * ulp(mag)
+            if abs(v - x[0] / x[1]) > tol:
+                raise Mismatch(f"entry ({s},{a}) is {v!r} after the episode, model {x[0]}/{x[1]} (running mean of returns, {visits} visits, tolerance {tol:g})", site="value")
+
+
+class MCAdapter:
+    def __init__(self, M, ns, na, n0, gamma):
+        self.M, self.n0, self.gamma = M, n0, gamma
+        self.q = np.array([[(12 + s * na + a) / 4 for a in range(na)] for s in range(ns)], dtype=np.float32)
+        self.n = np.full((ns, na), float(n0), dtype=np.float32)
+        self.ep, self.done = [], 0
+        self.view = {"q": rtab(self.q), "n": self.n.astype(int).tolist(), "ep": [], "done": 0}
+
+    def __deepcopy__(self, memo):
+        o = MCAdapter.__new__(MCAdapter)
+        o.M, o.n0, o.gamma = self.M, self.n0, self.gamma
+        o.q, o.n, o.ep, o.done, o.view = self.q.copy(), self.n.copy(), list(self.ep), self.done, self.view
+        return o
+
+
+def mc_update_real(M, q, n, ep, gamma):
+    import jax.numpy as jnp
+
+    rew = jnp.asarray([fq(x[2]) for x in ep], dtype=jnp.float32)
+    obs = jnp.asarray([x[0] for x in ep], dtype=jnp.int32)
+    act = jnp.asarray([x[1] for x in ep], dtype=jnp.int32)
+    res = M["mc"].update(jnp.asarray(q), jnp.asarray(n), rew, obs, act, gamma)
+    return np.asarray(res[0]), np.asarray(res[1])
+
+
+def mc_step(ad, op, args, exp, pre, post):
+    if op == "MCStep":
+        ad.ep.append(args)
+        if post is not None:
+            ad.view = post
+    elif op == "MCEnd":
+        q2, n2 = mc_update_real(ad.M, ad.q, ad.n, ad.ep, fq(args[0]))
+        if post is not None:
+            mag = max(float(np.abs(ad.q).max()), sum(abs(fq(x[2])) for x in ad.ep), 8.0)
+            mc_compare(q2, n2, post["q"], post["n"], ad.n0, mag)
+            ad.view = post
+        ad.q, ad.n, ad.ep, ad.done = q2, n2, [], ad.done + 1
+    else:  # pragma: no cover
+        raise AssertionError(op)
+
+
+def model_compare(Treal, Rreal, cnt, post, prevT, s, a, s2, on_stale):
+    """Counter / ForwardModel after one observed transition vs model.  Returns repaired T."""
+    if cnt.transition_counter != post["count"]:
+        raise Mismatch(f"transition counter {cnt.transition_counter} differs from model {post['count']}")
+    rh_model = [[[[fq(r) for r in l] for l in row] for row in st] for st in post["rh"]]
+    if cnt.reward_history != rh_model:
+        raise Mismatch(f"reward history {cnt.reward_history} differs from model {rh_model}")
+    ns, na = len(post["T"]), len(post["T"][0])
+    Tfix = np.array(Treal, dtype=np.float32)
+    stale = []
+    for x in range(ns):
+        for b in range(na):
+            for y in range(ns):
+                # float32(count / total) and float32(mean): one correctly rounded division, then one rounding to float32
+                if not close(Rreal[x, b, y], post["R"][x][b][y], 1):
+                    raise Mismatch(f"model.reward[{x},{b},{y}] = {float(Rreal[x, b, y])!r}, model {post['R'][x][b][y]} (mean of observed rewards)", site="reward")
+                if close(Treal[x, b, y], post["T"][x][b][y], 1):
+                    continue
+                if (x, b) == (s, a) and y != s2 and float(Treal[x, b, y]) == float(prevT[x, b, y]):
+                    stale.append((y, float(Treal[x, b, y]), post["T"][x][b][y]))
+                    Tfix[x, b, y] = np.float32(fq(post["T"][x][b][y]))
+                else:
+                    raise Mismatch(f"model.transition[{x},{b},{y}] = {float(Treal[x, b, y])!r}, model {post['T'][x][b][y]} (empirical frequency)", site="transition")
+    if stale:
+        on_stale(
+            f"model_update after observing ({s},{a})->{s2} rewrites only that entry: sibling successor probabilities stay stale "
+            f"{[(y, v, f'{m[0]}/{m[1]}') for y, v, m in stale]} (row no longer sums to 1)"
+        )
+    return Tfix
+
+
+class ModelAdapter:
+    def __init__(self, M, ns, na, sink):
+        self.M, self.ns, self.na, self.sink = M, ns, na, sink
+        self.cnt = M["dyna"].Counter(
+            transition_counter=[[[0] * ns for _ in range(na)] for _ in range(ns)],
+            reward_history=[[[[] for _ in range(ns)] for _ in range(na)] for _ in range(ns)],
+        )
+        self.T = np.zeros((ns, na, ns), dtype=np.float32)
+        self.R = np.zeros((ns, na, ns), dtype=np.float32)
+        self.path = []
+        self.view = {"count": self.cnt.transition_counter, "rh": [[[[] for _ in range(ns)] for _ in range(na)] for _ in range(ns)], "T": rtab(self.T), "R": rtab(self.R)}
+
+    def __deepcopy__(self, memo):
+        import copy
+
+        o = ModelAdapter.__new__(ModelAdapter)
+        o.M, o.ns, o.na, o.sink = self.M, self.ns, self.na, self.sink
+        o.cnt = copy.deepcopy(self.cnt)
+        o.T, o.R, o.path, o.view = self.T.copy(), self.R.copy(), list(self.path), self.view
+        return o
+
+
+def model_step(ad, op, args, exp, pre, post):
+    import jax.numpy as jnp
+
+    s, a, r, s2 = args
+    D = ad.M["dyna"]
+    ad.path.append({"op": op, "args": args, "post": post})
+    model = D.ForwardModel(transition=jnp.asarray(ad.T), reward=jnp.asarray(ad.R))
+    ad.cnt = D.counter_update(ad.cnt, s, a, fq(r), s2)
+    model = D.model_update(model, ad.cnt, s, a, s2)
+    T2, R2 = np.asarray(model.transition), np.asarray(model.reward)
+    if post is not None:
+        path = list(ad.path)
+        T2 = model_compare(T2, R2, ad.cnt, post, ad.T, s, a, s2, lambda what: ad.sink(what, path))
+        ad.view = post
+    ad.T, ad.R = T2, R2
+
+
+def _site(v):
+    return v["detail"].get("site", "exception" if v["what"].startswith("exception") else "state")
+
+
+def check_histories(rep, M, counters):
+    quick = rep.tier == "quick"
+    # ---- Monte-Carlo
+    mc_cfgs = [dict(NS=2, SRC=2, L=2, E=2, N0=0, G=(1, 2)), dict(NS=2, SRC=1, L=2, E=2, N0=1, G=(1, 1))]
+    if not quick:
+        mc_cfgs += [dict(NS=2, SRC=1, L=3, E=2, N0=1, G=(1, 1)), dict(NS=3, SRC=2, L=2, E=2, N0=0, G=(1, 1)), dict(NS=2, SRC=1, L=2, E=3, N0=0, G=(1, 2))]
+    for k, m in enumerate(mc_cfgs):
+        c = dict(NS=m["NS"], NA=2, ALG="MC", GNUM=m["G"][0], GDEN=m["G"][1], MAXLEN=m["L"], MAXEP=m["E"], N0=m["N0"], SRC=m["SRC"], LAT=0, EMIT=True)
+        g = tlc.run("TabularRun", tlc.cfg_text(constants=c, invariants=["MCMean"]), workers=1, coverage=True, tag="c14mc", timeout=1500)
+        rep.add_tlc(g, f"TabularRun MC {m}")
+        if not g.ok:
+            rep.violation(f"spec:TabularRun:MC:{g.violated}", f"design-level violation of {g.violated}", g.error_trace)
+            continue
+        tlc.require_covered(g, ["MCStep", "MCEnd"])
+        G = graph.Graph(g.emitted)
+        res = graph.cover(G, G.roots()[0], lambda: MCAdapter(M, m["NS"], 2, m["N0"], m["G"]), mc_step, lambda ad: ad.view)
+        ends = sum(1 for es in G.out.values() for e in es if e[0] == "MCEnd")
+        counters["evals"] += ends
+        counters["nontrivial"] += ends
+        counters["mc_edges"] = counters.get("mc_edges", 0) + res["edges_tested"]
+        rep.traces += ends
+        for v in res["violations"]:
+            rep.violation("monte_carlo:update:" + _site(v), f"monte_carlo.update ({m}): {v['what']}", {"kind": "mc_path", "cfg": m, "path": v["path"], "want": None})
+        if k == 0:
+            rep.sample({"mc_transition": next(e for e in g.emitted if e["op"] == "MCEnd" and e["pre"]["done"] == 1)})
+    if not quick:
+        # long random behaviours: visit counts well beyond the exhaustive bound
+        m = dict(NS=3, SRC=3, L=4, E=6, N0=0, G=(1, 2))
+        c = dict(NS=3, NA=2, ALG="MC", GNUM=1, GDEN=2, MAXLEN=4, MAXEP=6, N0=0, SRC=3, LAT=1, EMIT=True)
+        g = tlc.run("TabularRun", tlc.cfg_text(constants=c), workers=1, simulate="num=60", depth=40, seed=rep.seed + 5, tag="c14mcsim")
+        G = graph.Graph(g.emitted)
+        res = graph.cover(G, G.roots()[0], lambda: MCAdapter(M, 3, 2, 0, (1, 2)), mc_step, lambda ad: ad.view)
+        rep.traces += res["edges_tested"]
+        counters["mc_sim_edges"] = res["edges_tested"]
+        for v in res["violations"]:
+            rep.violation("monte_carlo:update:" + _site(v), f"monte_carlo.update (simulated): {v['what']}", {"kind": "mc_path", "cfg": m, "path": v["path"]})
+    r = tlc.run("TabularRun", tlc.cfg_text(next="NextBad", constants=dict(NS=2, NA=2, ALG="MC", GNUM=1, GDEN=2, MAXLEN=1, MAXEP=2, N0=0, SRC=1, LAT=0, EMIT=False), invariants=["MCMean"]), workers=min(W, 4), tag="c14mcbad")
+    if r.violated != "MCMean":
+        raise tlc.MachineryError("canary: off-by-one step size of the running mean not refuted by MCMean")
+
+    # ---- Dyna-Q model
+    md_cfgs = [dict(NS=3, SRC=1, E=3)] if quick else [dict(NS=3, SRC=1, E=4), dict(NS=2, SRC=2, E=3)]
+    for k, m in enumerate(md_cfgs):
+        c = dict(NS=m["NS"], NA=2, ALG="MODEL", GNUM=1, GDEN=1, MAXLEN=1, MAXEP=m["E"], N0=0, SRC=m["SRC"], LAT=0, EMIT=True)
+        g = tlc.run("TabularRun", tlc.cfg_text(constants=c, invariants=["ModelIsEmpirical", "RowsNormalised"]), workers=1, coverage=True, tag="c14md", timeout=1500)
+        rep.add_tlc(g, f"TabularRun MODEL {m}")
+        if not g.ok:
+            rep.violation(f"spec:TabularRun:MODEL:{g.violated}", f"design-level violation of {g.violated}", g.error_trace)
+            continue
+        tlc.require_covered(g, ["Observe"])
+        G = graph.Graph(g.emitted)
+
+        def sink(what, path, m=m):
+            rep.violation(K_MODEL, what, {"kind": "model_path", "cfg": m, "path": path})
+
+        res = graph.cover(G, G.roots()[0], lambda: ModelAdapter(M, m["NS"], 2, sink), model_step, lambda ad: ad.view)
+        counters["evals"] += res["edges_tested"]
+        two = sum(1 for kk, es in G.out.items() for e in es if sum(1 for row in G.state[e[3]]["count"] for rr in row if sum(1 for z in rr if z > 0) >= 2) > 0)
+        counters["nontrivial"] += two
+        counters["model_edges_two_successors"] = counters.get("model_edges_two_successors", 0) + two
+        rep.traces += res["edges_tested"]
+        for v in res["violations"]:
+            site = _site(v)
+            rep.violation(f"dynaq:model_update:{site}", f"counter_update/model_update ({m}): {v['what']}", {"kind": "model_path", "cfg": m, "path": [{"op": p["op"], "args": p["args"]} for p in v["path"]]})
+        if k == 0:
+            rep.sample({"model_transition": g.emitted[len(g.emitted) // 2]})
+    r = tlc.run("TabularRun", tlc.cfg_text(next="NextBad", constants=dict(NS=2, NA=2, ALG="MODEL", GNUM=1, GDEN=1, MAXLEN=1, MAXEP=2, N0=0, SRC=1, LAT=0, EMIT=False), invariants=["ModelIsEmpirical"]), workers=min(W, 4), tag="c14mdbad")
+    if r.violated != "ModelIsEmpirical":
+        raise tlc.MachineryError("canary: entry-only model update not refuted by ModelIsEmpirical")
+
+
+# ---------------------------------------------------------------- C. train_* runs (code -> spec)
+def make_env(ns, na, seed, det_rewards, p_term=0.2, p_trunc=0.1, max_len=5):
+    import gymnasium as gym
+
+    class ScriptedEnv(gym.Env):
+        """Small tabular MDP: every (s,a) has two possible successors; outcomes drawn from a seeded generator and logged."""
+
+        def __init__(self):
+            self.observation_space = gym.spaces.Discrete(ns)
+            self.action_space = gym.spaces.Discrete(na)
+            self.rng = np.random.default_rng(seed)
+            self.log = []  # (s, a, r, s2, terminated, truncated)
+            self.s = 0
+            self.k = 0
+
+        def reset(self, seed=None, options=None):
+            self.s = int(self.rng.integers(ns))
+            self.k = 0
+            return self.s, {}
+
+        def step(self, a):
+            a = int(a)
+            s = self.s
+            s2 = [(s + a + 1) % ns, (s + 2 * a + 2) % ns][int(self.rng.integers(2))]
+            if det_rewards:
+                r = ((s + 2 * a + 3 * s2) % 5 - 2) / 2.0
+            else:
+                r = float(self.rng.choice([-1.0, 0.0, 0.5, 1.0]))
+            term = bool(self.rng.random() < p_term)
+            self.k += 1
+            trunc = bool((not term) and (self.rng.random() < p_trunc or self.k >= max_len))
+            self.log.append((s, a, r, s2, term, trunc))
+            self.s = s2
+            return s2, r, term, trunc, {"episode": {"r": 0.0}}
+
+    return ScriptedEnv()
+
+
+class Interpose:
+    def __init__(self, module, **repl):
+        self.module, self.repl, self.orig = module, repl, {}
+
+    def __enter__(self):
+        for k, f in self.repl.items():
+            self.orig[k] = getattr(self.module, k)
+            setattr(self.module, k, f(self.orig[k]))
+        return self
+
+    def __exit__(self, *exc):
+        for k, f in self.orig.items():
+            setattr(self.module, k, f)
+        return False
+
+
+def _q0(rng, ns, na, zero):
+    import jax.numpy as jnp
+
+    if zero:
+        return jnp.zeros((ns, na), dtype=jnp.float32)
+    return jnp.asarray(rng.choice([0.0, 0.5, 1.0, 2.0], size=(ns, na)), dtype=jnp.float32)
+
+
+def run_train(M, cfg):
+    """Run one train_* routine with interposed update functions.
+    Returns dict(calls=[...], log=env.log, final=returned tables, plumbing=[(key, what)])."""
+    import jax.numpy as jnp
+
+    alg, ns, na, T = cfg["alg"], cfg["ns"], 2, cfg["T"]
+    g, lr = cfg["gamma"][0] / cfg["gamma"][1], cfg["lr"][0] / cfg["lr"][1]
+    rng = np.random.default_rng(cfg["seed"])
+    env = make_env(ns, na, cfg["seed"] + 1, det_rewards=(alg == "DYNA"))
+    q0 = _q0(rng, ns, na, cfg.get("zero", False))
+    calls, plumbing = [], []
+    A = lambda x: np.array(x, dtype=np.float32)
+    out = {"calls": calls, "plumbing": plumbing, "q0": A(q0)}
+
+    if alg in ("QL", "SARSA"):
+        def wrap(orig):
+            def f(q, s, a, r, s2, a2, gamma, x8, x9):
+                term, lr_ = (x8, x9) if alg == "QL" else (x9, x8)
+                res = orig(q, s, a, r, s2, a2, gamma, x8, x9)
+                calls.append(dict(k=alg, q=A(q), s=int(s), a=int(a), r=float(r), s2=int(s2), a2=int(a2), term=bool(term), gamma=float(gamma), lr=float(lr_), post=A(res), res=res))
+                return res
+            return f
+
+        mod = M["ql"] if alg == "QL" else M["sarsa"]
+        train = mod.train_q_learning if alg == "QL" else mod.train_sarsa
+        with Interpose(mod, _update_policy=wrap):
+            final = train(env, q0, learning_rate=lr, epsilon=0.5, gamma=g, total_timesteps=T, seed=cfg["seed"], progress_bar=False)
+        out["final"] = [A(final)]
+        out["last"] = [calls[-1]["post"]] if calls else [A(q0)]
+    elif alg == "DQL":
+        q0b = _q0(rng, ns, na, cfg.get("zero", False))
+        cur = [q0, q0b]
+
+        def wrap(orig):
+            def f(key, qa, qb, s, a, r, s2, gamma, lr_, term):
+                res = orig(key, qa, qb, s, a, r, s2, gamma, lr_, term)
+                if qa is cur[0] and qb is cur[1]:
+                    which = 0
+                elif qa is cur[1] and qb is cur[0]:
+                    which = 1
+                else:
+                    which = -1
+                    plumbing.append(("double_q_learning:tables_not_the_current_pair", f"call {len(calls)}: the tables passed to _dql_update are not (updated, other) of the current pair"))
+                calls.append(dict(k="DQL", q=A(qa), qB=A(qb), s=int(s), a=int(a), r=float(r), s2=int(s2), term=bool(term), gamma=float(gamma), lr=float(lr_), post=A(res), which=which))
+                if which >= 0:
+                    cur[which] = res
+                return res
+            return f
+
+        with Interpose(M["dql"], _dql_update=wrap):
+            final = M["dql"].train_double_q_learning(env, q0, q0b, learning_rate=lr, epsilon=0.5, gamma=g, total_timesteps=T, seed=cfg["seed"], progress_bar=False)
+        out["final"] = [A(final[0]), A(final[1])]
+        out["last"] = [A(cur[0]), A(cur[1])]
+        out["q0b"] = A(q0b)
+    elif alg == "MC":
+        def wrap(orig):
+            def f(q, n, rewards, observations, actions, gamma):
+                res = orig(q, n, rewards, observations, actions, gamma)
+                calls.append(dict(k="MC", q=A(q), n=A(n), rew=[float(x) for x in np.asarray(rewards)], obs=[int(x) for x in np.asarray(observations)], act=[int(x) for x in np.asarray(actions)], gamma=float(gamma), post=A(res[0]), npost=A(res[1])))
+                return res
+            return f
+
+        n0 = None if cfg.get("n0", 0) == 0 else jnp.full((ns, na), float(cfg["n0"]), dtype=jnp.float32)
+        with Interpose(M["mc"], update=wrap):
+            final = M["mc"].train_monte_carlo(env, q0, T, n_visits=n0, epsilon=0.5, gamma=g, seed=cfg["seed"], progress_bar=False)
+        out["final"] = [A(final[0]), A(final[1])]
+        out["last"] = [calls[-1]["post"], calls[-1]["npost"]] if calls else [A(q0), np.full((ns, na), float(cfg.get("n0", 0)), dtype=np.float32)]
+    elif alg == "DYNA":
+        state = {"in_plan": False, "plan": None}
+
+        def wrap_q(orig):
+            def f(obs, act, reward, next_obs, gamma, lr_, q):
+                res = orig(obs, act, reward, next_obs, gamma, lr_, q)
+                c = dict(k="PLAN" if state["in_plan"] else "DYNA", q=A(q), s=int(obs), a=int(act), r=float(reward), s2=int(next_obs), gamma=float(gamma), lr=float(lr_), post=A(res), t=len(env.log))
+                if state["in_plan"]:
+                    c["T"], c["R"] = state["plan"]
+                calls.append(c)
+                return res
+            return f
+
+        def wrap_c(orig):
+            def f(counter, obs, act, reward, next_obs):
+                res = orig(counter, obs, act, reward, next_obs)
+                calls.append(dict(k="CNT", s=int(obs), a=int(act), r=float(reward), s2=int(next_obs), t=len(env.log)))
+                return res
+            return f
+
+        def wrap_m(orig):
+            def f(model, counter, obs, act, next_obs):
+                res = orig(model, counter, obs, act, next_obs)
+                import copy
+
+                calls.append(dict(k="OBS", s=int(obs), a=int(act), s2=int(next_obs), T=A(res.transition), R=A(res.reward), count=copy.deepcopy(counter.transition_counter), rh=copy.deepcopy(counter.reward_history), t=len(env.log)))
+                return res
+            return f
+
+        def wrap_p(orig):
+            def f(mt, mr, ob, ab, n, key, gamma, lr_, q):
+                state["in_plan"], state["plan"] = True, (A(mt), A(mr))
+                k0 = len(calls)
+                try:
+                    res = orig(mt, mr, ob, ab, n, key, gamma, lr_, q)
+                finally:
+                    state["in_plan"] = False
+                calls.append(dict(k="PLANCALL", n=int(n), made=len(calls) - k0, q=A(q), post=A(res), T=A(mt), R=A(mr), t=len(env.log)))
+                return res
+            return f
+
+        with Interpose(M["dyna"], q_learning_update=wrap_q, counter_update=wrap_c, model_update=wrap_m, planning=wrap_p):
+            final = M["dyna"].train_dynaq(env, q0, gamma=g, learning_rate=lr, epsilon=0.5, n_planning_steps=cfg["nplan"], buffer_size=cfg.get("buffer", 1000), total_timesteps=T, seed=cfg["seed"], progress_bar=False)
+        out["final"] = [A(final)]
+        qcalls = [c for c in calls if c["k"] in ("DYNA", "PLAN")]
+        out["last"] = [qcalls[-1]["post"]] if qcalls else [A(q0)]
+    else:  # pragma: no cover
+        raise AssertionError(alg)
+    out["log"] = list(env.log)
+    return out
+
+
+NAME = {"QL": "q_learning", "SARSA": "sarsa", "DQL": "double_q_learning", "MC": "monte_carlo", "DYNA": "dynaq", "PLAN": "dynaq:planning"}
+
+
+def plumbing_checks(cfg, run):
+    """The updates are applied to the transitions that really happened, and folded: every call starts from the
+    table the previous call returned, the routine returns the last one.  (Equality of recorded values only.)"""
+    alg, log, calls = cfg["alg"], run["log"], run["calls"]
+    bad = list(run["plumbing"])
+    name = NAME[alg]
+    if len(log) != cfg["T"]:
+        bad.append((f"{name}:train:steps", f"{len(log)} environment steps for total_timesteps={cfg['T']}"))
+    if alg in ("QL", "SARSA", "DQL"):
+        if len(calls) != len(log):
+            bad.append((f"{name}:train:update_count", f"{len(calls)} updates for {len(log)} transitions"))
+        for c, tr in zip(calls, log):
+            if (c["s"], c["a"], c["r"], c["s2"], c["term"]) != tr[:5]:
+                bad.append((f"{name}:train:update_not_on_observed_transition", f"update arguments {(c['s'], c['a'], c['r'], c['s2'], c['term'])} differ from the environment's transition {tr[:5]}"))
+        if alg != "DQL":
+            prev = run["q0"]
+            for i, c in enumerate(calls):
+                if not np.array_equal(c["q"], prev):
+                    bad.append((f"{name}:train:fold_broken", f"update {i} does not start from the table returned by the previous update"))
+                prev = c["post"]
+    elif alg == "MC":
+        eps, cur = [], []
+        for tr in log:
+            cur.append(tr)
+            if tr[4] or tr[5]:
+                eps.append(cur)
+                cur = []
+        if len(calls) != len(eps):
+            bad.append(("monte_carlo:train:update_count", f"{len(calls)} updates for {len(eps)} finished episodes"))
+        prev = (run["q0"], None)
+        for i, (c, e) in enumerate(zip(calls, eps)):
+            if (c["obs"], c["act"], c["rew"]) != ([t[0] for t in e], [t[1] for t in e], [t[2] for t in e]):
+                bad.append(("monte_carlo:train:episode_not_the_observed_one", f"episode {i}: update got obs={c['obs']} act={c['act']} rew={c['rew']}, environment produced {[t[:3] for t in e]}"))
+            if not np.array_equal(c["q"], prev[0]) or (prev[1] is not None and not np.array_equal(c["n"], prev[1])):
+                bad.append(("monte_carlo:train:fold_broken", f"update {i} does not start from the tables returned by the previous update"))
+            prev = (c["post"], c["npost"])
+    elif alg == "DYNA":
+        prev = run["q0"]
+        by_t = {}
+        for c in calls:
+            by_t.setdefault(c["t"], []).append(c)
+        for t, tr in enumerate(log, start=1):
+            ks = [c["k"] for c in by_t.get(t, [])]
+            want = ["DYNA", "CNT", "OBS"] + ["PLAN"] * cfg["nplan"] + ["PLANCALL"]
+            if ks != want:
+                bad.append(("dynaq:train:call_sequence", f"step {t}: calls {ks}, expected {want}"))
+                continue
+            for c in by_t[t]:
+                if c["k"] in ("DYNA", "CNT") and (c["s"], c["a"], c["r"], c["s2"]) != tr[:4]:
+                    bad.append(("dynaq:train:update_not_on_observed_transition", f"step {t}: {c['k']} arguments {(c['s'], c['a'], c['r'], c['s2'])} differ from the environment's transition {tr[:4]}"))
+                if c["k"] == "OBS" and (c["s"], c["a"], c["s2"]) != (tr[0], tr[1], tr[3]):
+                    bad.append(("dynaq:train:update_not_on_observed_transition", f"step {t}: model_update arguments differ from the environment's transition {tr[:4]}"))
+                if c["k"] in ("DYNA", "PLAN"):
+                    if not np.array_equal(c["q"], prev):
+                        bad.append(("dynaq:train:fold_broken", f"step {t}: a Q update does not start from the table returned by the previous update"))
+                    prev = c["post"]
+                if c["k"] == "PLANCALL":
+                    obs = next(x for x in by_t[t] if x["k"] == "OBS")
+                    if not (np.array_equal(c["T"], obs["T"]) and np.array_equal(c["R"], obs["R"])):
+                        bad.append(("dynaq:train:planning_not_on_learned_model", f"step {t}: planning did not receive the model returned by model_update"))
+                    if not np.array_equal(c["post"], prev):
+                        bad.append(("dynaq:train:fold_broken", f"step {t}: planning does not return the table of its last update"))
+    for f, l in zip(run["final"], run["last"]):
+        if not np.array_equal(f, l):
+            bad.append((f"{name}:train:returned_table_is_not_the_fold", f"returned table {f.tolist()} differs from the result of the last update {l.tolist()}"))
+    return bad
+
+
+def _snap(v):
+    f = Fraction(float(v)).limit_denominator(4096)
+    return [f.numerator, f.denominator]
+
+
+def events_of(cfg, run):
+    """Recorded calls -> TLC events. Returns (events, refs) with refs[i] = the call judged by event i (or None)."""
+    alg, calls, log = cfg["alg"], run["calls"], run["log"]
+    ev, refs, skipped = [], [], 0
+    G, LR = cfg["gamma"], cfg["lr"]
+    R = lambda x: rat(x)
+    if alg == "MC":
+        ev.append({"k": "MCRESET", "q": rtab(run["q0"]), "n": [[int(cfg.get("n0", 0))] * run["q0"].shape[1] for _ in range(run["q0"].shape[0])]})
+        refs.append(None)
+        for c in calls:
+            ev.append({"k": "MC", "ep": [[o, a, R(r)] for o, a, r in zip(c["obs"], c["act"], c["rew"])], "gamma": G})
+            refs.append(c)
+        return ev, refs, 0
+    if alg == "DYNA":
+        ns, na = run["q0"].shape
+        ev.append({"k": "MRESET", "ns": ns, "na": na})
+        refs.append(None)
+    for c in calls:
+        k = c["k"]
+        if k in ("CNT", "PLANCALL"):
+            continue
+        if k == "OBS":
+            cn = next(x for x in calls if x["k"] == "CNT" and x["t"] == c["t"])
+            ev.append({"k": "OBS", "s": c["s"], "a": c["a"], "r": R(cn["r"]), "s2": c["s2"]})
+            refs.append(c)
+            continue
+        q = rtab(c["q"])
+        r = R(c["r"])
+        if q is None or r is None or (k == "DQL" and rtab(c["qB"]) is None):
+            skipped += 1  # denominators beyond TLC's integer range: not decidable exactly, skipped (counted)
+            continue
+        e = {"k": k, "q": q, "s": c["s"], "a": c["a"], "r": r, "s2": c["s2"], "gamma": G, "lr": LR}
+        if k in ("QL", "SARSA"):
+            e["a2"], e["term"] = c["a2"], c["term"]
+        if k == "DQL":
+            e["qB"], e["term"] = rtab(c["qB"]), c["term"]
+        if k == "PLAN":
+            row = c["T"][c["s"], c["a"]]
+            e["trank"] = [int(x) for x in np.unique(row, return_inverse=True)[1]]
+            e["rrow"] = [rat(x) or _snap(x) for x in c["R"][c["s"], c["a"]]]
+            e["buf"] = [[t[0], t[1]] for t in log[: c["t"]]]
+        ev.append(e)
+        refs.append(c)
+    return ev, refs, skipped
+
+
+def judge_event(cfg, c, o, ctx):
+    """One recorded call vs TLC's record for it. Returns list of (key, what)."""
+    k = c["k"]
+    bad = []
+    if k == "MC":
+        try:
+            mag = max(float(np.abs(c["q"]).max()), sum(abs(x) for x in c["rew"]), 8.0)
+            mc_compare(c["post"], c["npost"], o["q"], o["n"], int(cfg.get("n0", 0)), mag)
+        except Mismatch as m:
+            bad.append(("monte_carlo:update:" + m.detail.get("site", "state"), "train run: " + m.what))
+        return bad
+    if k == "OBS":
+        prevT, prevE = ctx.get("prevT"), ctx.get("prevE")
+        ns, na = c["T"].shape[:2]
+        if prevT is None:
+            prevT = np.zeros_like(c["T"])
+            prevE = [[[[0, 1]] * ns for _ in range(na)] for _ in range(ns)]
+        if c["count"] != o["count"]:
+            bad.append(("dynaq:counter_update:counts", f"transition counter {c['count']} differs from model {o['count']}"))
+        if c["rh"] != [[[[fq(r) for r in l] for l in row] for row in st] for st in o["rh"]]:
+            bad.append(("dynaq:counter_update:rewards", f"reward history {c['rh']} differs from model"))
+        stale = []
+        for x in range(ns):
+            for b in range(na):
+                for y in range(ns):
+                    if not close(c["R"][x, b, y], o["R"][x][b][y], 1):
+                        bad.append(("dynaq:model_update:reward", f"model.reward[{x},{b},{y}] = {float(c['R'][x, b, y])!r}, model {o['R'][x][b][y]}"))
+                    if close(c["T"][x, b, y], o["T"][x][b][y], 1):
+                        continue
+                    untouched = float(c["T"][x, b, y]) == float(prevT[x, b, y])
+                    if (x, b) == (c["s"], c["a"]) and y != c["s2"] and untouched:
+                        stale.append((y, float(c["T"][x, b, y]), o["T"][x][b][y]))
+                    elif (x, b) != (c["s"], c["a"]) and untouched and o["T"][x][b][y] == prevE[x][b][y]:
+                        pass  # an earlier stale entry of another row persists; reported when it arose
+                    else:
+                        bad.append(("dynaq:model_update:transition", f"model.transition[{x},{b},{y}] = {float(c['T'][x, b, y])!r}, model {o['T'][x][b][y]}"))
+        if stale:
+            bad.append((K_MODEL, f"train_dynaq: model_update after ({c['s']},{c['a']})->{c['s2']} leaves sibling successor probabilities stale {[(y, v, f'{m[0]}/{m[1]}') for y, v, m in stale]}"))
+        ctx["prevT"], ctx["prevE"] = c["T"], o["T"]
+        return bad
+    name = NAME[k]
+    post = np.asarray(c["post"], dtype=np.float64)
+    adm = [tab(t) for t in o["adm"]]
+    if k == "PLAN":
+        if not o["pairok"]:
+            bad.append(("dynaq:planning:pair_not_observed", f"planning updates ({c['s']},{c['a']}) which was never observed"))
+        if not o["succok"]:
+            bad.append(("dynaq:planning:successor_not_most_likely", f"planning uses successor {c['s2']} of ({c['s']},{c['a']}), model row {c['T'][c['s'], c['a']].tolist()}"))
+        if not o["rewok"]:
+            bad.append(("dynaq:planning:reward_not_model_reward", f"planning uses reward {c['r']} for ({c['s']},{c['a']})->{c['s2']}, model row {c['R'][c['s'], c['a']].tolist()}"))
+    if k == "QL" and not o["a2ok"]:
+        bad.append(("q_learning:train:next_action_not_greedy", f"next action {c['a2']} is not a maximiser of the table at the successor {c['s2']}"))
+        adm = [tab(o["given"])]
+    if any(np.array_equal(post, t) for t in adm):
+        return bad
+    s, a = c["s"], c["a"]
+    mask = np.ones(post.shape, dtype=bool)
+    mask[s, a] = False
+    if not np.array_equal(post[mask], np.asarray(c["q"], dtype=np.float64)[mask]):
+        bad.append((f"{name}:other_entry_changed", f"train run: entries other than ({s},{a}) changed"))
+    elif k == "DQL" and post[s, a] == tab(o["dev"])[s, a]:
+        bad.append((K_DQL, f"train_double_q_learning: entry ({s},{a}) became {post[s, a]} = value with the greedy action of the CURRENT state; admissible {[float(t[s, a]) for t in adm]}"))
+    else:
+        bad.append((f"{name}:update_value", f"train run: entry ({s},{a}) became {post[s, a]}, admissible {[float(t[s, a]) for t in adm]}"))
+    return bad
+
+
+def validate_runs(rep, M, cfgs, counters, corrupt=False):
+    """Run the routines, validate all recorded calls in one TLC run. Returns list of (cfg, key, what)."""
+    all_ev, index, found = [], [], []
+    for cfg in cfgs:
+        try:
+            run = run_train(M, cfg)
+        except Exception as ex:
+            import traceback
+
+            tb = traceback.extract_tb(ex.__traceback__)
+            found.append((cfg, f"{NAME[cfg['alg']]}:train:exception", f"{type(ex).__name__} at {tb[-1].name}: {str(ex)[:200]}"))
+            continue
+        for key, what in plumbing_checks(cfg, run):
+            found.append((cfg, key, what))
+        ev, refs, skipped = events_of(cfg, run)
+        counters["skipped_events"] = counters.get("skipped_events", 0) + skipped
+        for e, c in zip(ev, refs):
+            all_ev.append(e)
+            index.append((cfg, c))
+    if corrupt:  # binding canary: falsify one recorded result
+        for cfg, c in index:
+            if c is not None and c["k"] in ("QL", "SARSA", "DQL", "DYNA"):
+                c["post"] = c["post"].copy()
+                c["post"][c["s"], c["a"]] += 0.25
+                break
+    os.makedirs(OUT_TMP, exist_ok=True)
+    path = os.path.join(OUT_TMP, f"c14-trace-{os.getpid()}-{len(all_ev)}.json")
+    with open(path, "w") as f:
+        json.dump({"events": all_ev}, f)
+    try:
+        r = tlc.run("TabularTrace", tlc.cfg_text(invariants=["Consumed"]), workers=1, env={"TRACE_FILE": path}, tag="c14trace", timeout=900)
+    finally:
+        os.remove(path)
+    if not corrupt:
+        rep.add_tlc(r, f"TabularTrace {len(all_ev)} recorded calls")
+    if not r.ok or len(r.emitted) != len(all_ev):
+        raise tlc.MachineryError(f"trace validation consumed {len(r.emitted)} of {len(all_ev)} events")
+    ctxs = {}
+    for (cfg, c), o in zip(index, r.emitted):
+        if c is None:
+            continue
+        counters["train_events"] = counters.get("train_events", 0) + 1
+        for key, what in judge_event(cfg, c, o, ctxs.setdefault(id(cfg), {})):
+            found.append((cfg, key, what))
+    return found
+
+
+# ---------------------------------------------------------------- run / replay
+def train_cfgs(tier, seed):
+    n, T = (3, 8) if tier == "quick" else (12, 12)
+    cfgs = []
+    for i, alg in enumerate(["QL", "SARSA", "DQL", "MC", "DYNA"]):
+        for j in range(n):
+            cfgs.append(dict(
+                alg=alg, ns=3 if j % 3 else 2, T=T if alg != "MC" else T + 6,
+                gamma=[1, 2] if j % 2 else [1, 1], lr=[1, 2] if j % 3 != 2 else [1, 1],
+                seed=1000 * seed + 100 * i + j, nplan=1 + j % 2, zero=(j % 4 == 3), n0=(1 if (alg == "MC" and j % 3 == 1) else 0),
+                buffer=(2 if j % 4 == 1 else 1000),
+            ))
+    return cfgs
+
+
+def run(rep):
+    quick = rep.tier == "quick"
+    for m in ("TabularOps", "Tabular", "TabularRun", "TabularTrace"):
+        tlc.sany(m)
+    M = _mods()
+    counters = dict(evals=0, nontrivial=0, ties=0)
+    rep.rule = (
+        "single updates: TLC enumerates the complete lattice of Tabular.tla per code section (state, action, successor, [next action], "
+        "sentinel tables with the visited entry and the successor row(s) overwritten from {-1,0,1/2,2}, reward, terminated, gamma in {0,1/2,1}, lr) and emits the admissible result tables; "
+        "a vector is non-trivial when the visited entry must change. histories: every transition of the reachable graph of TabularRun.tla "
+        "(Monte-Carlo episodes; Dyna-Q observations incl. two successors of one pair) is replayed once; train_* runs: every recorded update call is validated by TLC"
+    )
+    # A. single updates
+    if quick:
+        plan = [("QL", 2, 0), ("SARSA", 2, 0), ("DQL", 2, 0), ("DYNA", 2, 0), ("PLAN", 2, 0)]
+    else:
+        plan = [("QL", 3, 1), ("QL", 2, 1), ("SARSA", 3, 0), ("SARSA", 2, 1), ("DQL", 3, 0), ("DQL", 2, 0), ("DYNA", 3, 1), ("DYNA", 2, 1), ("PLAN", 3, 0), ("PLAN", 2, 1)]
+    first_ql = None
+    for alg, ns, lat in plan:
+        es = check_vectors(rep, M, alg, ns, lat, counters)
+        if alg == "QL" and es and first_ql is None:
+            first_ql = es
+    rep.traces += counters["evals"]
+    # canary (a): the realistic wrong variant of double Q-learning must be refuted by TLC
+    r = tlc.run("Tabular", tlc.cfg_text(next="NextBad", constants=dict(NS=2, NA=2, ALG="DQL", LAT=0, EMIT=False), invariants=["UpdateEquation"]), workers=min(W, 4), tag="c14bad")
+    if r.violated != "UpdateEquation":
+        raise tlc.MachineryError("canary: greedy-at-current-state deviation of double Q-learning not refuted by UpdateEquation")
+    # canary (b): a corrupted expected value must be noticed by the comparison
+    if first_ql:
+        e = next(x for x in first_ql if tab(x["adm"][0])[x["v"]["s"], x["v"]["a"]] != tab(x["v"]["qA"])[x["v"]["s"], x["v"]["a"]])
+        got, n2 = call_single(M, e["v"])
+        if judge_single("QL", e, got, n2):
+            pass  # a genuine violation, already reported by check_vectors
+        else:
+            e2 = json.loads(json.dumps(e))
+            s, a = e["v"]["s"], e["v"]["a"]
+            for t in e2["adm"]:
+                t[s][a] = [t[s][a][0] + t[s][a][1], t[s][a][1]]
+            if not judge_single("QL", e2, got, n2):
+                raise tlc.MachineryError("binding canary: corrupted expected table not noticed (vectors)")
+            g2 = got.copy()
+            g2[(s + 1) % g2.shape[0], a] += 1
+            if not any(k.endswith("other_entry_changed") for k, _ in judge_single("QL", e, g2, n2)):
+                raise tlc.MachineryError("binding canary: change of an unvisited entry not noticed")
+
+    # B. histories
+    check_histories(rep, M, counters)
+
+    # C. train_* runs
+    cfgs = train_cfgs(rep.tier, rep.seed)
+    for cfg, key, what in validate_runs(rep, M, cfgs, counters):
+        rep.violation(key, f"{what} [train_{cfg['alg']} seed={cfg['seed']}]", {"kind": "train", "cfg": cfg})
+    rep.traces += counters.get("train_events", 0)
+    canary = validate_runs(rep, M, [dict(alg="SARSA", ns=2, T=3, gamma=[1, 2], lr=[1, 2], seed=7, nplan=1)], {}, corrupt=True)
+    if not any(k == "sarsa:update_value" for _, k, _ in canary):
+        raise tlc.MachineryError("binding canary: corrupted recorded table not noticed (train trace)")
+
+    rep.evaluations = counters["evals"] + counters.get("train_events", 0)
+    rep.distinct = counters["nontrivial"]
+    rep.exhaustive = True
+    rep.extra.update({k: v for k, v in counters.items() if k not in ("evals", "nontrivial")})
+    rep.extra["train_runs"] = len(cfgs)
+    rep.assumptions += [
+        "small scope: |S| <= 3, |A| = 2, dyadic entries/rewards/gamma/lr; float32 arithmetic is exact there, so comparison is ==",
+        "non-dyadic step sizes (Monte-Carlo visit counts >= 3) are compared within 4 float32 ulp of the magnitude bound per visit; model frequencies / mean rewards within 1 ulp (one division in float64, one rounding to float32)",
+        "ties of the greedy action: any maximiser is admissible (set membership); greedy_policy itself is checked to return a maximiser",
+        "Dyna-Q's update has no termination input: modelled without the (1 - terminated) factor (named deviation from the Q-learning form, not an alarm)",
+        "bulk replay calls the real jitted function under jax.vmap; a seeded sample is also called un-batched with python scalars and must agree",
+        "train_* runs: epsilon=0.5 exploration with the library's own generator; the environment's outcomes come from a seeded numpy generator; recorded calls whose table denominators exceed 2^12 are skipped (counted in skipped_events)",
+        "trusted: TLC, Exact.tla, float<->rational projection, graph-cover replay",
+    ]
+
+
+def _path_to_events(kind, d):
+    cfg = d["cfg"]
+    if kind == "mc_path":
+        ns = cfg["NS"]
+        q0 = [[[12 + s * 2 + a, 4] for a in range(2)] for s in range(ns)]
+        q0 = [[[Fraction(*x).numerator, Fraction(*x).denominator] for x in row] for row in q0]
+        ev, ep = [{"k": "MCRESET", "q": q0, "n": [[cfg["N0"]] * 2 for _ in range(ns)]}], []
+        for st in d["path"]:
+            if st["op"] == "MCStep":
+                ep.append(st["args"])
+            else:
+                ev.append({"k": "MC", "ep": ep, "gamma": st["args"][0]})
+                ep = []
+        return ev
+    ev = [{"k": "MRESET", "ns": cfg["NS"], "na": 2}]
+    for st in d["path"]:
+        s, a, r, s2 = st["args"]
+        ev.append({"k": "OBS", "s": s, "a": a, "r": r, "s2": s2})
+    return ev
+
+
+def replay(path, rep):
+    doc = json.load(open(path))
+    d = doc["replay"]
+    M = _mods()
+    bad = []
+    if not isinstance(d, dict):
+        print("design-level counterexample (TLC error trace):\n", d)
+        return 1
+    kind = d["kind"]
+    if kind == "vector":
+        e = d["e"]
+        got, n2 = call_single(M, e["v"])
+        print("vector:", e["v"])
+        print("real result:", np.asarray(got).tolist(), "next action:", n2)
+        print("admissible :", [tab(t).tolist() for t in e["adm"]])
+        bad = judge_single(e["v"]["alg"], e, got, n2)
+    elif kind == "train":
+        bad = [(k, w) for _, k, w in validate_runs(rep, M, [d["cfg"]], {})]
+    elif kind in ("mc_path", "model_path"):
+        ev = _path_to_events(kind, d)
+        os.makedirs(OUT_TMP, exist_ok=True)
+        p = os.path.join(OUT_TMP, f"c14-replay-{os.getpid()}.json")
+        json.dump({"events": ev}, open(p, "w"))
+        try:
+            r = tlc.run("TabularTrace", tlc.cfg_text(), workers=1, env={"TRACE_FILE": p}, tag="c14replay")
+        finally:
+            os.remove(p)
+        outs = r.emitted[1:]
+        cfg = d["cfg"]
+        if kind == "mc_path":
+            ad = MCAdapter(M, cfg["NS"], 2, cfg["N0"], cfg["G"])
+            k = 0
+            for st in d["path"]:
+                if st["op"] == "MCStep":
+                    ad.ep.append(st["args"])
+                    continue
+                pre_q = ad.q
+                ep = list(ad.ep)
+                mc_step(ad, "MCEnd", st["args"], None, None, None)
+                print("episode", ep, "->", ad.q.tolist(), ad.n.tolist(), " model:", outs[k]["q"], outs[k]["n"])
+                try:
+                    mc_compare(ad.q, ad.n, outs[k]["q"], outs[k]["n"], cfg["N0"], max(float(np.abs(pre_q).max()), sum(abs(fq(x[2])) for x in ep), 8.0))
+                except Mismatch as m:
+                    bad.append(("monte_carlo:update", m.what))
+                k += 1
+        else:
+            ad = ModelAdapter(M, cfg["NS"], 2, lambda *a: None)
+            ctx = {}
+            for st, o in zip(d["path"], outs):
+                model_step(ad, "Observe", st["args"], None, None, None)
+                s, a, r, s2 = st["args"]
+                c = dict(k="OBS", s=s, a=a, s2=s2, T=ad.T.copy(), R=ad.R.copy(), count=ad.cnt.transition_counter, rh=ad.cnt.reward_history)
+                print("observe", st["args"], "-> T row", ad.T[s, a].tolist(), " model:", o["T"][s][a])
+                bad += judge_event({}, c, o, ctx)
+    else:
+        print("unknown replay kind", kind)
+        return 2
+    if bad:
+        print("VIOLATION property=C14 replay=" + path)
+        for k, w in bad:
+            print(f"  key={k} :: {w}"[:1200])
+        return 1
+    print("no violation on replay")
+    return 0
